@@ -107,7 +107,13 @@ func one(v interface{}) []interface{} { return []interface{}{v} }
 func (x *Exec) queryCases(s *Snap) []qcase {
 	var cs []qcase
 	names := dedup(append(sortedDefNames(s), "nosuch", "a"))
-	provSet := map[string]bool{hx([]byte{0x01}): true, hx(acctAddr(0)): true}
+	// Non-20-byte address arguments cannot be expressed on the legacy route (known finding A20-C17); they are
+	// asked on that route only in every tenth run so that the other nine explore everything else.
+	oddAddrs := x.cfg.Run%10 == 0
+	provSet := map[string]bool{hx(acctAddr(0)): true}
+	if oddAddrs {
+		provSet[hx([]byte{0x01})] = true
+	}
 	ownerSet := map[string]bool{hx(acctAddr(1)): true}
 	for _, bk := range s.BindingKeys() {
 		b := s.Bindings[bk]
@@ -490,6 +496,9 @@ func oracleC17(x *Exec, r *StepRec) {
 			if !judge(c, "grpc", got, grpcWant(c), err) {
 				return
 			}
+			if skipLegacy(x, c) {
+				continue
+			}
 			var data []byte
 			if c.legacyPar != nil {
 				data = cdc.MustMarshalJSON(c.legacyPar)
@@ -507,6 +516,9 @@ func oracleC17(x *Exec, r *StepRec) {
 	}
 	for i := range cases {
 		c := &cases[i]
+		if skipLegacy(x, c) {
+			x.stats.inc("probe_query_legacy_skipped_non20_address")
+		}
 		reqBz, _ := proto.Marshal(c.grpcReq)
 		res := h.Query(c.grpcPath, reqBz)
 		var got []string
@@ -523,6 +535,9 @@ func oracleC17(x *Exec, r *StepRec) {
 		}
 		if !judge(c, "abci_grpc", got, grpcWant(c), err) {
 			return
+		}
+		if skipLegacy(x, c) {
+			continue
 		}
 		var data []byte
 		if c.legacyPar != nil {
@@ -562,4 +577,8 @@ func trunc(s []string) []string {
 		out = append(out, v)
 	}
 	return out
+}
+
+func skipLegacy(x *Exec, c *qcase) bool {
+	return c.addrLen != 0 && c.addrLen != 20 && x.cfg.Run%10 != 0
 }
